@@ -365,7 +365,16 @@ pub fn run(run: &Run) {
                 let side = Side { role, seed: 77 + shape as u64, speaks_first };
                 let mut s = original_peer_stream(&side, shape);
                 s.extend_from_slice(&[0xA1, 0xA2, 0xA3]);
-                shape_cases.push(StreamCase { name: format!("library {:?} (speaks first: {}) fed a digest-less peer's stream of shape {} + 3 trailing bytes", role, speaks_first, shape), side, stream: s, expect_echo_of_peer_p1: true });
+                shape_cases.push(StreamCase { name: format!("library {:?} (speaks first: {}) fed a digest-less peer's stream of shape {} + 3 trailing bytes", role, speaks_first, shape), side: side.clone(), stream: s.clone(), expect_echo_of_peer_p1: true });
+                if shape <= 2 {
+                    // a peer that follows the original specification to the letter: packet 2 = our time, ITS OWN read
+                    // time (time2), our random bytes - i.e. bytes 4..8 of its packet 2 differ from our packet 1
+                    for (vi, time2) in [[1u8, 2, 3, 4], [0, 0, 0, 0]].iter().enumerate() {
+                        let mut t = s.clone();
+                        t[1537 + 4..1537 + 8].copy_from_slice(time2);
+                        shape_cases.push(StreamCase { name: format!("library {:?} (speaks first: {}) fed a digest-less peer's stream of shape {} whose packet 2 carries its own time2 (variant {}) + 3 trailing bytes", role, speaks_first, shape, vi), side: side.clone(), stream: t, expect_echo_of_peer_p1: true });
+                    }
+                }
             }
         }
     }
@@ -416,6 +425,57 @@ pub fn run(run: &Run) {
             }
         });
         run.count("peer_packet1_pointer_sums", ok.load(Ordering::Relaxed));
+    }
+    // (i') a side started with an empty process_bytes call instead of generate_outbound_p0_and_p1 emits its packets 0
+    //      and 1 in that call (documented usage), and the exchange then completes
+    {
+        let mut n = 0u64;
+        for both in [false, true] {
+            let cs = Side { role: Role::Client, seed: 61, speaks_first: false };
+            let ss = Side { role: Role::Server, seed: 62, speaks_first: false };
+            let (mut c, _) = start(&cs);
+            let (mut s, _) = start(&ss);
+            calls.fetch_add(1, Ordering::Relaxed);
+            let c01 = match feed(&cs, &mut c, &[]) {
+                Res::InProgress(r) if r.len() == 1537 && r[0] == 3 => r,
+                other => {
+                    run.violation("C05/empty-first-call-emits-nothing", &format!("a fresh client handshake fed an empty first call returned {} instead of its 1537 bytes (version byte + packet 1)", short(&other)), json!({"role": "Client", "first_call": "empty"}));
+                    continue;
+                }
+            };
+            let mut to_client: Vec<u8> = Vec::new();
+            if both {
+                calls.fetch_add(1, Ordering::Relaxed);
+                match feed(&ss, &mut s, &[]) {
+                    Res::InProgress(r) if r.len() == 1537 && r[0] == 3 => to_client.extend(r),
+                    other => {
+                        run.violation("C05/empty-first-call-emits-nothing", &format!("a fresh server handshake fed an empty first call returned {}", short(&other)), json!({"role": "Server", "first_call": "empty"}));
+                        continue;
+                    }
+                }
+            }
+            let r1 = feed(&ss, &mut s, &c01);
+            match r1 {
+                Res::InProgress(r) => to_client.extend(r),
+                other => {
+                    run.violation("C05/error", &format!("server on the client's first 1537 bytes after empty-call starts: {}", short(&other)), json!({"both_started_with_empty_calls": both}));
+                    continue;
+                }
+            }
+            let c2 = match feed(&cs, &mut c, &to_client) {
+                Res::Completed(r, rem) if rem.is_empty() => r,
+                other => {
+                    run.violation("C05/not-completed", &format!("client after empty-call starts: {} (was fed {} bytes)", short(&other), to_client.len()), json!({"both_started_with_empty_calls": both}));
+                    continue;
+                }
+            };
+            match feed(&ss, &mut s, &c2) {
+                Res::Completed(_, rem) if rem.is_empty() => n += 1,
+                other => run.violation("C05/not-completed", &format!("server after empty-call starts: {}", short(&other)), json!({"both_started_with_empty_calls": both})),
+            }
+            calls.fetch_add(3, Ordering::Relaxed);
+        }
+        run.count("exchanges_started_with_empty_calls", n);
     }
     // (ii) large amounts of application data behind the peer's last handshake packet, in the same call and split
     {
